@@ -347,6 +347,18 @@ func TestVerifC05(t *testing.T) {
 				res.Violate("file-blown-up:"+zzvDamagedField(desc), fmt.Sprintf("the counter file grew from %d to %d bytes: %s", out.size0, out.size, desc), map[string]any{"case": desc})
 			}
 			afterSets := zzvValueSets(after)
+			// a counter the process created itself holds at most what the process added (the area beyond
+			// the limit may contain anything at rest)
+			for _, u := range use {
+				if _, existed := before[u]; existed || baseNames[u] {
+					continue // (a base counter whose chain the damage has cut is not a new counter)
+				}
+				for v := range afterSets[u] {
+					if v > uint64(1)<<len(use)+64+128 {
+						res.Violate("new-counter-overcounted:"+zzvDamagedField(desc), fmt.Sprintf("new counter %q reads %d after the process added at most %d: %s", zzvShort(u), v, uint64(1)<<len(use)+64+128, desc), map[string]any{"case": desc})
+					}
+				}
+			}
 			for n, vs := range before {
 				isUsed := false
 				for _, u := range use {
@@ -396,6 +408,15 @@ func TestVerifC05(t *testing.T) {
 		zzvC05TableEnd = w.HdrLen + 4 + 4*ref.CFBuckets
 		zzvC05TrueLimit = binary.LittleEndian.Uint32(w.Data[w.HdrLen:])
 		checkRest("R:"+bn+" undamaged", w.Bytes())
+		{
+			// every word intact, but the unallocated area beyond the limit is not zero
+			d := w.Bytes()
+			lim := binary.LittleEndian.Uint32(d[w.HdrLen:])
+			for off := lim; int(off)+8 <= len(d) && off < lim+4096; off += 32 {
+				binary.LittleEndian.PutUint64(d[off:], 1000000)
+			}
+			checkRest("R:"+bn+" free-area-dirty", d)
+		}
 		fields := zzvFields(w, offs, names)
 		vals := zzvDamageValues(w, offs)
 		for _, f := range fields {
@@ -620,6 +641,9 @@ func zzvOpenFDs() int {
 
 // zzvDamagedField names the damaged fields of a case ("R2:two-collide limit=0x.. rec0.next=0x..").
 func zzvDamagedField(desc string) string {
+	if strings.Contains(desc, "free-area-dirty") {
+		return "free-area-dirty"
+	}
 	var fields []string
 	for _, tok := range strings.Fields(desc) {
 		if i := strings.Index(tok, "="); i > 0 {
